@@ -44,6 +44,24 @@ def pbMarshal (allOrNothing : Bool) (cap : Nat) (ver body : List Nat) : Option (
     let (n2, e2) := wWrite allOrNothing (cap - n) body
     some (n + n2, e2, h ++ body.take n2)
 
+/-- the answer of an arbitrary `io.Writer` to one `Write(p)`: it takes `min accept |p|` bytes and reports an
+    error when told to or when it took fewer (the io.Writer contract); `(|p|, err)` is a legal answer -/
+structure WAns where
+  accept : Nat
+  fail : Bool
+deriving Repr, DecidableEq
+
+/-- `Marshal(w, msg)` against a writer scripted call by call (`a1` answers the header write, `a2` the body
+    write): returns (count, failed, bytes the writer took) -/
+def pbMarshalScript (a1 a2 : WAns) (ver body : List Nat) : Option (Nat × Bool × List Nat) :=
+  match pbHeader ver body.length with
+  | none => none
+  | some h =>
+    let n := min a1.accept h.length
+    if a1.fail || decide (n < h.length) then some (n, true, h.take n) else
+    let n2 := min a2.accept body.length
+    some (n + n2, a2.fail || decide (n2 < body.length), h ++ body.take n2)
+
 /-- a reader: the bytes it will deliver, then `endErr` (`eof` or an injected error) -/
 structure PbReader where
   avail : List Nat
